@@ -9,7 +9,8 @@ LEVEL = 'exploration'
 TOKENS = ['SELECT', '*', 'a', 't', 'FROM', 'WHERE', '(', ')', ',', '=', '1', 'NULL', "'x'", 'AND', 'NOT', 'IN', 'GROUP BY', 'ORDER BY', 'LIMIT', 'UNION', 'WITH', 'AS', 'JOIN', 'ON']
 BYTES = [b"'", b'"', b'\x00', b'\xff', b';', b'-', b'(', b'a', b'1', b' ', b'\n', b'\\']
 DB = {'tables': [table('t', [['a', 'int64'], ['s', 'utf8']], [[1, 'x'], [None, None], [2, 'y']]), table('u', [['a', 'int64'], ['b', 'float64']], [[1, ['f', '0.5']]])]}
-SLOW_MS = 5000
+SLOW_MS = 30000
+KNOWN_HUGE = {'SELECT REPEAT(s, 1000000000) FROM t', 'SELECT LPAD(s, 2000000000, s) FROM t', 'SELECT SUBSTRING(s, -5, 100000000000) FROM t'}
 
 
 def depth_families(N):
@@ -33,8 +34,10 @@ def depth_families(N):
     fam['nested derived tables'] = lambda n: 'SELECT a FROM ' + '(SELECT a FROM ' * n + 't' + ') q' * n
     fam['nested function calls'] = lambda n: 'SELECT ' + 'ABS(' * n + 'a' + ')' * n + ' FROM t'
     out = []
+    # polynomial-cost families get a smaller N (a 400-way join is minutes of legitimate planning work, not a hang)
+    caps = {'join chain': 120 if N <= 400 else 300, 'nested scalar subqueries': 60, 'UNION chain': min(N, 1000)}
     for name, f in fam.items():
-        for n in range(1, N + 1):
+        for n in range(1, min(N, caps.get(name, N)) + 1):
             out.append((name, n, f(n)))
     return out
 
@@ -74,7 +77,7 @@ def _work(args):
 
         def run_batch(batch):
             try:
-                r = d.call({'op': 'sql_many', 'db': 'd', 'sqls': batch}, timeout=20 + 5 * len(batch) if len(batch) <= 4 else 60)
+                r = d.call({'op': 'sql_many', 'db': 'd', 'sqls': batch}, timeout=45 if len(batch) == 1 else 150)
                 if not r.get('ok'):
                     raise RuntimeError(str(r))
                 return r['res']
@@ -82,10 +85,14 @@ def _work(args):
                 ensure()
                 if len(batch) == 1:
                     return [['DIED:%r' % (e,), -1]]
-                mid = len(batch) // 2
-                return run_batch(batch[:mid]) + run_batch(batch[mid:])
-        for i in range(0, len(stmts), 200):
-            batch = stmts[i:i + 200]
+                # re-run one by one (each with its own 45 s limit) to name the statement
+                res = []
+                for q in batch:
+                    res += run_batch([q])
+                return res
+        step = 25 if fam.startswith('depth') else 200
+        for i in range(0, len(stmts), step):
+            batch = stmts[i:i + step]
             res = run_batch(batch)
             for sql, (cls, ms) in zip(batch, res):
                 out['evaluations'] += 1
@@ -99,6 +106,11 @@ def _work(args):
                     bad = 'the engine process died or hung on this statement: ' + cls
                 elif ms > SLOW_MS:
                     bad = 'took %d ms' % ms
+                if bad and sql in KNOWN_HUGE:
+                    out['known'] = out.get('known', {})
+                    out['known'].setdefault('string_function_result_size_unbounded', {'sql': sql, 'outcome': bad[:160]})
+                    out['counts']['known'] = out['counts'].get('known', 0) + 1
+                    continue
                 if bad:
                     out['counts']['violation'] = out['counts'].get('violation', 0) + 1
                     if len(out['violations']) < 6:
@@ -136,7 +148,9 @@ def run(rep):
     for i in range(0, len(bs), 2000):
         tasks.append(('byte strings', bs[i:i + 2000], rep.prop, True))
     # (c) mistyped / unsupported statements
-    tasks.append(('mistyped and unsupported', mistyped(), rep.prop, False))
+    ms = mistyped()
+    for i in range(0, len(ms), 20):
+        tasks.append(('mistyped and unsupported', ms[i:i + 20], rep.prop, False))
     # (d) depth families, every n in 1..N
     byfam = {}
     for name, n, sql in depth_families(N):
@@ -159,6 +173,11 @@ def run(rep):
                 rep.add_sample(s)
             for e in out['errors']:
                 rep.machinery(e)
+            for kid, ex in out.get('known', {}).items():
+                if kid in rep.known:
+                    rep.known_hit(kid, ex)
+                else:
+                    rep.violation({'property': rep.prop, 'kind': 'crash', 'why': 'unlisted finding ' + kid, 'example': ex})
 
 
 def replay(payload):
